@@ -22,6 +22,7 @@ func init() {
 		"fmt.Sprintf":                   inFmtSprintf,
 		"fmt.Sprint":                    inFmtSprint,
 		"errors.Is":                     inErrorsIs,
+		"errors.As":                     inErrorsAs,
 		"(*errors.joinError).Error":     inJoinErrorError,
 		"strconv.Itoa":                  inItoa,
 		"strconv.FormatInt":             inFormatInt,
@@ -1228,4 +1229,47 @@ func init() {
 		}
 		return g.m.ctx.FPConst(math.Mod(math.Float64frombits(a.Val), math.Float64frombits(b.Val)))
 	}
+}
+
+
+// errors.As: walk the chain; the first error whose dynamic type is assignable to the target's element type is stored.
+func inErrorsAs(g *G, fn *ssa.Function, args []Value) Value {
+	m := g.m
+	err, _ := args[0].(*IfaceV)
+	target, _ := args[1].(*IfaceV)
+	if target == nil {
+		panic(&goPanic{val: &IfaceV{T: types.Typ[types.String], V: m.strConst("errors: target cannot be nil")}, kind: "explicit", site: g.siteOfModule(), stack: g.stackTrace()})
+	}
+	pt, ok := target.T.(*types.Pointer)
+	if !ok {
+		m.unsupported("errors.As with a non-pointer target")
+	}
+	cell, _ := target.V.(*Cell)
+	elem := pt.Elem()
+	for depth := 0; err != nil && depth < 50; depth++ {
+		match := false
+		if types.IsInterface(elem) {
+			match = types.Implements(err.T, elem.Underlying().(*types.Interface))
+		} else {
+			match = types.Identical(err.T, elem)
+		}
+		if match {
+			if types.IsInterface(elem) {
+				m.store(cell, err)
+			} else {
+				m.store(cell, err.V)
+			}
+			return m.ctx.True
+		}
+		f := g.hasMethod(err.T, "Unwrap")
+		if f == nil || f.Signature.Results().Len() != 1 {
+			break
+		}
+		if _, isSlice := under(f.Signature.Results().At(0).Type()).(*types.Slice); isSlice {
+			m.unsupported("errors.As through a multi-error")
+		}
+		next, _ := g.call(f, []Value{err.V}, nil).(*IfaceV)
+		err = next
+	}
+	return m.ctx.False
 }
